@@ -124,65 +124,33 @@ theorem C14_ensureWriteable_no_spin (s : St) (hel : s.ensureLoop = false) :
   refine ensureOnce_cases (motive := fun p => p.2 ≠ .spin) s ?_ ?_ ?_ ?_ ?_ <;> intros <;> try simp
   rename_i r _ _ _; cases r <;> simp [readyEW]
 
-/-- **C14 (3), no spin — what holds.**  With the fixed `ensure_writeable`, one dispatch poll observes no `Obs.spin`
-provided `run`'s fuel exceeds `runMeasure s` (inbound items + 2 × queued requests + queued cancellations + armed
-timers): every iteration of `run` that loops consumes at least one unit of it.  The model's
-`runFuel s = inbound + queued requests + cancellations + timers + 4` satisfies the hypothesis iff at most 3
-requests are queued (see `C14_run_fuel_witness` below for what happens otherwise). -/
-theorem C14_no_spin_of_fuel (s : St) (now : Nat) (hel : s.ensureLoop = false) (hf : runMeasure s < runFuel s) :
-    (pollDispatch s now).obs.filter isSpinObs = s.obs.filter isSpinObs := by
-  have hcore : (pollDispatchCore { s with dWoken := false } now).1.obs.filter isSpinObs = s.obs.filter isSpinObs := by
-    refine pollDispatchCore_cases (motive := fun p => p.1.obs.filter isSpinObs = s.obs.filter isSpinObs)
-      { s with dWoken := false } now ?_ ?_ ?_ ?_ ?_
-    · intro a s1 fin _ h1
-      have := filter_spinObs_of_tObs (shutDown_frameA { s with dWoken := false } a).tobs
-      rw [h1] at this; exact this
-    · intro s1 _ h1
-      have := run_no_spin (runFuel { s with dWoken := false }) { s with dWoken := false } now hel hf
-      rw [h1] at this; exact this
-    · intro s1 _ h1
-      have := run_no_spin (runFuel { s with dWoken := false }) { s with dWoken := false } now hel hf
-      rw [h1] at this; exact this
-    · intro s1 _ h1
-      have := run_no_spin (runFuel { s with dWoken := false }) { s with dWoken := false } now hel hf
-      rw [h1] at this; exact this
-    · intro s1 a s2 fin _ h1 h2
-      have h := run_no_spin (runFuel { s with dWoken := false }) { s with dWoken := false } now hel hf
-      rw [h1] at h
-      have := filter_spinObs_of_tObs (shutDown_frameA { s1 with termErr := some a } a).tobs
-      rw [h2] at this; exact this.trans h
-  have hkeep : (pollDispatchKeep s now).obs.filter isSpinObs = s.obs.filter isSpinObs := by
-    rw [pollDispatchKeep_eq]
-    split
-    · simp [isSpinObs]
-    · rcases hc : pollDispatchCore { s with dWoken := false } now with ⟨s1, r⟩
-      rw [hc] at hcore
-      simp only at hcore ⊢
-      have hk : (keepFinish s.obs s1 r).obs.filter isSpinObs = s.obs.filter isSpinObs := by
-        unfold keepFinish
-        rw [any_eq_filter_ne_nil, any_eq_filter_ne_nil, hcore]
-        simp only [Bool.and_not_self, Bool.false_eq_true, ↓reduceIte]
-        split
-        · exact hcore
-        · simp [isSpinObs, hcore]
-      unfold keepDone
-      split
-      · exact hk
-      · exact hk
-  rw [pollDispatch_eq]
-  split
-  · exact (filter_spinObs_of_tObs (dropDispatch_frameA _).tobs).trans hkeep
-  · exact hkeep
+/-- `run`'s fuel always suffices: `runFuel s = runMeasure s + 4`, where `runMeasure s` (inbound items + 2 × queued
+requests + queued cancellations + armed timers) bounds the number of iterations of `run` that loop — every such
+iteration consumes at least one unit of it (`run_no_spin`).  (The real loop has no bound; the fuel is a model
+device.) -/
+theorem C14_run_fuel_suffices (s : St) : runMeasure s < runFuel s := runMeasure_lt_runFuel s
 
-/-- In particular: at most three queued requests. -/
-theorem C14_no_spin_small_queue (s : St) (now : Nat) (hel : s.ensureLoop = false) (hq : s.pq.length ≤ 3) :
+/-- **C14 (3), no spin, one poll.**  With the fixed `ensure_writeable`, a dispatch poll started in *any* state
+observes no `Obs.spin`. -/
+theorem C14_no_spin_poll (s : St) (now : Nat) (hel : s.ensureLoop = false) :
     (pollDispatch s now).obs.filter isSpinObs = s.obs.filter isSpinObs :=
-  C14_no_spin_of_fuel s now hel (by unfold runMeasure runFuel; omega)
+  pollDispatch_no_spin s now hel
 
 /-- The statement asked for: with the current `ensure_writeable`, no reachable dispatch poll observes a spin. -/
 def C14NoSpinStatement : Prop :=
   ∀ (m b c : Nat) (coupled : Bool) (ops : List COp) (t : TaskId),
     CEv.obs (.spin t) ∉ trace (initSysWith false m b c coupled) ops
+
+/-- **C14 (3), no spin.**  For all configurations and all op scripts, the fixed `ensure_writeable` never makes the
+dispatch spin: no `Obs.spin` occurs in the event trace. -/
+theorem C14_no_spin : C14NoSpinStatement :=
+  fun m b c coupled ops t => trace_no_spin ops (c := initSysWith false m b c coupled) rfl t
+
+/-- The same for the generated configuration `initSys` (whose `ensure_writeable` variant is the flag
+`Gen.clientEnsureLoop` read off the source), as long as that flag says "fixed". -/
+theorem C14_no_spin_initSys (hflag : Gen.clientEnsureLoop = false) (m b c : Nat) (coupled : Bool) (ops : List COp)
+    (t : TaskId) : CEv.obs (.spin t) ∉ trace (initSys m b c coupled) ops :=
+  trace_no_spin ops (c := initSys m b c coupled) hflag t
 
 /-! ### instances, witnesses, findings -/
 
@@ -221,16 +189,16 @@ def c14FuelOps : List COp :=
    .pollCall 0, .pollCall 1, .pollCall 2, .pollCall 3, .pollDispatch]
 
 set_option maxRecDepth 100000 in
-/-- **Finding (model artefact): `runFuel` is too small.**  Four queued requests whose deadlines have already
-passed: `run` needs 4 iterations to write them, 4 more to expire them and one to finish, but
-`runFuel = 4 + 4`.  The model then reports a spin (and poisons the dispatch) although the real loop simply
-terminates; `runFuel` should count queued requests twice (`runMeasure s + 1` suffices, by `run_no_spin`). -/
-theorem C14_run_fuel_witness :
-    CEv.obs (.spin (.dispatch 0)) ∈ trace (initSysWith false 4 4 4 true) c14FuelOps := by decide
-
-/-- Hence the unconditional statement is false for the model as it stands (`C14_no_spin_of_fuel` is what holds). -/
-theorem C14NoSpinStatement_false : ¬ C14NoSpinStatement :=
-  fun h => h 4 4 4 true c14FuelOps (.dispatch 0) C14_run_fuel_witness
+/-- **Former finding, turned around.**  Four queued requests whose deadlines have already passed: `run` needs 4
+iterations to write them, 4 more to expire them and one to finish.  The model's earlier `runFuel` (queued requests
+counted once: 4 + 4) ran out here and reported a spurious spin; with `runFuel = runMeasure + 4` the poll
+terminates normally, as the real (unbounded) loop does: no spin, nothing left in flight, the dispatch is not
+poisoned, and `monC14` accepts. -/
+theorem C14_run_fuel_witness_fixed :
+    CEv.obs (.spin (.dispatch 0)) ∉ trace (initSysWith false 4 4 4 true) c14FuelOps ∧
+    (c14FuelOps.foldl applyOp (initSysWith false 4 4 4 true)).s.inflight = [] ∧
+    (c14FuelOps.foldl applyOp (initSysWith false 4 4 4 true)).s.poisoned = false ∧
+    (monC14 (trace (initSysWith false 4 4 4 true) c14FuelOps)).ok = true := by decide
 
 /-- a request is written but its flush is blocked; its call is dropped; the cancel's `start_send` fails -/
 def c14CancelFailOps : List COp :=
